@@ -75,6 +75,13 @@ theorem getter_failure_clean {idx : Nat → Nat} {progs : List (List (List Instr
     (h : Reachable idx progs s) (hs : step idx s i = some (.cpopFail k, s')) :
     s'.cache = s.cache ∧ s'.cache k = none := getter_failure_clean' h hs
 
+/-- an inner-cache `rmv` that raises happens under the write lock of the key and changes neither the
+cache nor the array; the caller then releases the write lock (`rmHRelW`) and unwinds, so
+`locks_released`, `no_caller_stuck` and `progress_bounded` cover the exception path of `rmv` as well -/
+theorem rmv_failure_clean {idx : Nat → Nat} {progs : List (List (List Instr))} {s s' : St} {i k : Nat}
+    (h : Reachable idx progs s) (hs : step idx s i = some (.crmvFail k, s')) :
+    s'.cache = s.cache ∧ s'.arr = s.arr ∧ ∃ c, s.cs[i]? = some c ∧ c.pc.writeKey = some k := rmv_failure_clean' h hs
+
 /-- a caller that has not finished always has a step (possibly a failed lock guard) -/
 theorem no_caller_stuck {idx : Nat → Nat} {progs : List (List (List Instr))} {s : St} {i : Nat} {c : Caller}
     (h : Reachable idx progs s) (hi : s.cs[i]? = some c) (hnt : c.terminal = false) : (step idx s i).isSome :=
